@@ -325,7 +325,7 @@ def build(tier, seed):
                   "s0: int, s1: int, t0: int, t1: int, d: Union[None, bool, int, str]",
                   f"return literal_site(s0, s1, t0, t1, {extra}, {strict}, d)",
                   pre=[("0 <= s0 < 4" if s0v is None else f"s0 == {s0v}") + " and 0 <= t0 < 4", ("2 <= s1 < 4 and 2 <= t1 < 4" if quick else "0 <= s1 < 4 and 0 <= t1 < 4"), "not isinstance(d, str) or d in ('', 'a')",
-                       "not isinstance(d, int) or -1 <= d <= 5"], timeout=tmo * 2,
+                       "not isinstance(d, int) or -1 <= d <= 5"], timeout=tmo * 4,
                   family="cache-key soundness: real BuiltinMediator.cached_call at the Literal loader site",
                   bounds="two case tuples from (0, False, 1, True)^2 (quick: second member in (1, True)) (+ (2,3,4) for the set branch); datum symbolic atom")
     mi = Module("c11_immut").pre(IMMUT_SETUP)
